@@ -10,7 +10,10 @@ package frontend
 //  S1 content of accepted texts. Inputs: every query of cypher/test/cases/{positive,mutation,negative,filtering}
 //     _tests.json, a list of hand written texts for rarely used constructs (vfExtraQueries: hints, query options,
 //     Unicode dashes / arrow heads, escapes, reserved words as names, projections, updating clauses, the unsupported
-//     constructs ...), plus generated families in the frames `match (n) where <e> return n` / `return <e>`:
+//     constructs ...), the multi-part queries of vfMultiPartQueries (after `match (n)-[r]->(m)` EVERY sequence of
+//     1..4 clauses over set / remove / delete / create / merge / with, parsed with NewContext(), which accepts
+//     updating clauses; all of them must be accepted, and the SEQUENCE of content tokens - hence the clause order -
+//     must be kept), plus generated families in the frames `match (n) where <e> return n` / `return <e>`:
 //       bool   : ALL binary tree shapes over 1..4 atoms n.a = 1, n.b = 2, n.c = 3, n.d = 4 x ALL operator
 //                assignments {and, or, xor} x ALL subsets of negated atoms x negated inner nodes (bound 1: at most
 //                one negated inner node when there are 4 atoms; bound 2: all subsets, and additionally all trees
@@ -1506,6 +1509,58 @@ var vfSampleQueries = []string{
 	"match (n) where n.a = true and n.b = false and n.c = null return n;",
 }
 
+// vfMultiPartQueries: after an initial MATCH, EVERY sequence of 1..4 clauses over {set, remove, delete, create, merge,
+// with} (6 + 36 + 216 + 1296 sequences). The text of a clause carries its position (property names s<i>, r<i>, ...
+// and the literal <i>), so a clause that is moved, dropped or duplicated changes the sequence of content tokens. A
+// sequence that ends in WITH is closed by RETURN; one that ends in an updating clause is given both without and with
+// a final RETURN.
+func vfMultiPartQueries() []string {
+	clause := func(kind, i int) string {
+		switch kind {
+		case 0:
+			return fmt.Sprintf("set n.s%d = %d", i, i)
+		case 1:
+			return fmt.Sprintf("remove n.r%d", i)
+		case 2:
+			if i%2 == 0 {
+				return "delete r"
+			}
+			return "detach delete m, r"
+		case 3:
+			if i%2 == 0 {
+				return fmt.Sprintf("create (c%d:K%d {v: %d})", i, i, i)
+			}
+			return fmt.Sprintf("create (n)-[:E%d {v: %d}]->(m)", i, i)
+		case 4:
+			if i%2 == 0 {
+				return fmt.Sprintf("merge (g%d:G {v: %d})", i, i)
+			}
+			return fmt.Sprintf("merge (g%d:G {v: %d}) on create set g%d.c = %d on match set g%d.m = true", i, i, i, i, i)
+		default:
+			return []string{"with n, r, m", "with n, r, m where n.w1 = 1", "with n, r, m order by n.o2 desc limit 2", "with distinct n, r, m"}[i%4]
+		}
+	}
+	var out []string
+	var rec func(prefix string, depth, last int)
+	rec = func(prefix string, depth, last int) {
+		if depth > 0 {
+			if last == 5 {
+				out = append(out, prefix+" return n")
+			} else {
+				out = append(out, prefix, prefix+" return n, m")
+			}
+		}
+		if depth == 4 {
+			return
+		}
+		for kind := 0; kind < 6; kind++ {
+			rec(prefix+" "+clause(kind, depth), depth+1, kind)
+		}
+	}
+	rec("match (n)-[r]->(m)", 0, -1)
+	return out
+}
+
 // vfExtraQueries: hand written texts for constructs the fixture corpora use rarely or not at all (S1, multiset check).
 var vfExtraQueries = []string{
 	"match (n:Person) using index n:Person(name) where n.name = 'x' return n",
@@ -1720,6 +1775,17 @@ func TestVerifBoundedFaithful(t *testing.T) {
 	chunked("S1-fixtures", fixtures, 20, func(q string, r *vfResult) { r.record(q, vfCheck(q, false, nil)) })
 
 	chunked("S1-extras", vfExtraQueries, 20, func(q string, r *vfResult) { r.record(q, vfCheck(q, false, nil)) })
+
+	// ---- S1: multi-part queries in which updating clauses and WITH alternate (sequence check: the clause ORDER is kept)
+	multiPart := vfMultiPartQueries()
+	chunked("S1-multipart", multiPart, 200, func(q string, r *vfResult) {
+		c := vfCheck(q, true, nil)
+		if !c.accepted && len(c.classes) == 0 {
+			// every one of these texts is in the language: a rejection would make the check vacuous
+			c.classes, c.msgs = []string{"multipart-rejected"}, []string{"the multi-part query is rejected by the parser (NewContext)"}
+		}
+		r.record(q, c)
+	})
 
 	// ---- S1: generated families
 	boolSem := &vfSemantics{pick: vfPickWhere, envs: vfBoolEnvs(), name: "truth-table"}
@@ -2064,8 +2130,8 @@ func TestVerifBoundedFaithful(t *testing.T) {
 		sections = append(sections, fmt.Sprintf("%s=%d", s, c))
 	}
 	sort.Strings(sections)
-	boundText := fmt.Sprintf("bound %s: %d fixture queries, %d hand written queries; bool trees over <=%d atoms (%d texts), arithmetic trees over <=4 operands (%d texts), %d comparison chains, %d string/list/null predicate texts, %d redundant constructs, %d numeric spellings, 9 foreign characters at every position and 8 fillers at every token boundary of %d sample queries (+%d range queries); inputs per section: %s",
-		map[bool]string{false: "1", true: "2"}[thorough], len(fixtures), len(vfExtraQueries), maxAtoms, len(boolQs), len(arithQs), len(chainQs), len(strQs), len(s5)+len(s5a), len(s3), len(sample), len(vfRangeQueries), strings.Join(sections, ", "))
+	boundText := fmt.Sprintf("bound %s: %d fixture queries, %d hand written queries, %d multi-part queries (every sequence of 1..4 clauses of set/remove/delete/create/merge/with after a MATCH); bool trees over <=%d atoms (%d texts), arithmetic trees over <=4 operands (%d texts), %d comparison chains, %d string/list/null predicate texts, %d redundant constructs, %d numeric spellings, 9 foreign characters at every position and 8 fillers at every token boundary of %d sample queries (+%d range queries); inputs per section: %s",
+		map[bool]string{false: "1", true: "2"}[thorough], len(fixtures), len(vfExtraQueries), len(multiPart), maxAtoms, len(boolQs), len(arithQs), len(chainQs), len(strQs), len(s5)+len(s5a), len(s3), len(sample), len(vfRangeQueries), strings.Join(sections, ", "))
 	out, _ := json.Marshal(map[string]any{
 		"name": "faithful", "bound": boundText, "cases": cases, "accepted": accepted, "exhaustive": true,
 		"failures": failures, "failure_count": failureCount, "known_deviations": knownCount, "known_deviation_hits": knownHitsByClass, "known_deviations_observed": knownSeen,
